@@ -4,7 +4,7 @@ CONSTANTS
   NT = 4
   ReleaseOnFailedCtor = TRUE
   RollbackKeepsLock = TRUE
-  AllowFailedRollback = FALSE
+  FailedRollbackKeepsLock = TRUE
   AtomicAcquire = TRUE
 INVARIANT InvAtMostOneWriter
 INVARIANT InvLockFreeIffNoWriter
